@@ -100,7 +100,7 @@ def _compile_one(cc, flags, src, objdir, extra_inc):
     pre = sh(cmd + " -E " + shlex.quote(src), capture_output=True)
     if pre.returncode != 0:
         sys.stderr.write(pre.stderr.decode(errors="replace"))
-        raise SystemExit("BUILD ERROR: preprocessing %s failed" % src)
+        print("BUILD ERROR: preprocessing %s failed" % src); raise SystemExit(3)
     # strip line markers so that unrelated line shifts in headers do not matter less than content
     key = hashlib.sha256(cmd.encode() + b"\0" + pre.stdout).hexdigest()[:24]
     obj = os.path.join(objdir, "%s.%s.o" % (base, key))
@@ -109,7 +109,7 @@ def _compile_one(cc, flags, src, objdir, extra_inc):
         r = sh(cmd + " -c %s -o %s" % (shlex.quote(src), shlex.quote(tmp)), capture_output=True)
         if r.returncode != 0:
             sys.stderr.write(r.stderr.decode(errors="replace"))
-            raise SystemExit("BUILD ERROR: compiling %s failed" % src)
+            print("BUILD ERROR: compiling %s failed" % src); raise SystemExit(3)
         os.replace(tmp, obj)
     return obj
 
@@ -166,7 +166,7 @@ def link(variant, name, harness_sources, ldflags="", shared=False, with_main=Fal
     r = sh(cmd, capture_output=True)
     if r.returncode != 0:
         sys.stderr.write(r.stderr.decode(errors="replace"))
-        raise SystemExit("BUILD ERROR: linking %s failed" % out)
+        print("BUILD ERROR: linking %s failed" % out); raise SystemExit(3)
     os.replace(out + ".tmp", out)
     open(stamp, "w").write(key)
     return out
